@@ -169,9 +169,9 @@ def commands(t, tier, w32=False):
     if w32:
         out.append("mul mo=4 hi=0 ks=all")
         out.append("hasorder mo=4 hi=0 ks=all")
-    big = n > BIG_N
+    big = n > BIG_N                # two complete scalar sweeps (widths 4 and 6) instead of five; above 400 points one (width 4)
     for mo in (8, 16, 48):
-        out.append("mul mo=%d hi=0 ks=%s" % (mo, "all" if (not big or mo != 16) else bl))
+        out.append("mul mo=%d hi=0 ks=%s" % (mo, "all" if (not big or mo == 8 or (mo == 48 and n <= 400)) else bl))
         out.append("mul mo=%d hi=1 ks=%s" % (mo, "all" if ((mo == 8 and not big) or small) else bl))
         out.append("hasorder mo=%d hi=0 ks=%s" % (mo, "all" if (mo == 8 and not big) else bl.replace("0,", "", 1)))
         out.append("hasorder mo=%d hi=1 ks=%s" % (mo, bl.replace("0,", "", 1)))
